@@ -63,6 +63,7 @@ type Task struct {
 	g     uintptr
 	wake  chan struct{}
 	state atomic.Int32
+	site  int
 	low   bool // the world task: runs only when nothing else is ready
 	prio  int
 	sim   *Sim
@@ -120,6 +121,8 @@ type Sim struct {
 	IOHook func(ev *IOEvent) IOAction
 	ioSeq  int64
 
+	syncTasks int32 // race annotations only: tasks release here, the world acquires
+	syncWorld int32 // the world releases here, resuming tasks acquire
 	nodeLocal sync.Map // key nlKey -> interface{}
 	world     *World
 	start     time.Time
@@ -133,6 +136,7 @@ func Active() bool { return cur.Load() != nil }
 // Current returns the running simulation or nil.
 func Current() *Sim { return cur.Load() }
 
+//go:norace
 func (s *Sim) logf(kind string, a, b int64, str string) {
 	// FNV-1a over the entry; never draws, never reads a clock.
 	h := s.digest
@@ -167,6 +171,7 @@ func (s *Sim) logf(kind string, a, b int64, str string) {
 
 // Log appends an entry to the run's event log (hashed into the digest). It must be
 // called by the token holder or the world only.
+//go:norace
 func Log(kind string, a, b int64, str string) {
 	if s := cur.Load(); s != nil {
 		raceOff()
@@ -198,6 +203,7 @@ func (s *Sim) TraceTail() []string {
 	return out
 }
 
+//go:norace
 func (s *Sim) newTask(name string, node int, low bool) *Task {
 	s.mu.Lock()
 	t := &Task{ID: len(s.tasks), Name: name, Node: node, wake: make(chan struct{}, 1), low: low, sim: s}
@@ -210,6 +216,7 @@ func (s *Sim) newTask(name string, node int, low bool) *Task {
 	return t
 }
 
+//go:norace
 func (s *Sim) bind(t *Task) {
 	g := getg()
 	t.g = g
@@ -218,6 +225,7 @@ func (s *Sim) bind(t *Task) {
 	s.mu.Unlock()
 }
 
+//go:norace
 func (s *Sim) unbind(t *Task) {
 	s.mu.Lock()
 	if s.byG[t.g] == t {
@@ -227,6 +235,7 @@ func (s *Sim) unbind(t *Task) {
 }
 
 // self returns the task of the calling goroutine (nil if unmanaged).
+//go:norace
 func (s *Sim) self() *Task {
 	g := getg()
 	if t := s.current.Load(); t != nil && t.g == g {
@@ -238,12 +247,20 @@ func (s *Sim) self() *Task {
 	return t
 }
 
+//go:norace
 func (t *Task) dead() bool {
 	return int64(t.epoch) != t.sim.nodeEpoch[t.Node&63].Load()
 }
 
 // park registers the calling task as ready and blocks until it is given the token.
+//go:norace
 func (s *Sim) park(t *Task) {
+	// callers hold exactly one raceOff()
+	if t.low {
+		raceRelease(&s.syncWorld)
+	} else {
+		raceRelease(&s.syncTasks)
+	}
 	if s.current.Load() == t {
 		s.current.Store(nil)
 	}
@@ -253,12 +270,18 @@ func (s *Sim) park(t *Task) {
 	default:
 	}
 	<-t.wake
+	if t.low {
+		raceAcquire(&s.syncTasks)
+	} else {
+		raceAcquire(&s.syncWorld)
+	}
 	if t.dead() && !t.low {
 		runtime.Goexit()
 	}
 }
 
 // Yield is a scheduling point. Instrumented code calls it before every statement.
+//go:norace
 func Yield(site int) {
 	s := cur.Load()
 	if s == nil {
@@ -300,6 +323,7 @@ func Yield(site int) {
 	s.park(t)
 }
 
+//go:norace
 func (s *Sim) wantPreempt(t *Task) bool {
 	if s.Steps > s.maxSteps() {
 		s.Overrun = true
@@ -331,6 +355,7 @@ func (s *Sim) wantPreempt(t *Task) bool {
 
 type overrun struct{}
 
+//go:norace
 func (s *Sim) maxSteps() int64 {
 	if s.cfg.MaxSteps > 0 {
 		return s.cfg.MaxSteps
@@ -338,6 +363,7 @@ func (s *Sim) maxSteps() int64 {
 	return 50_000_000
 }
 
+//go:norace
 func (s *Sim) drawGap() {
 	mean := s.cfg.MeanGap
 	if mean <= 0 {
@@ -352,6 +378,7 @@ func (s *Sim) drawGap() {
 }
 
 // Go starts f as a new task of the calling task's node (instrumented `go` statements).
+//go:norace
 func Go(site int, f func()) {
 	s := cur.Load()
 	if s == nil {
@@ -359,17 +386,21 @@ func Go(site int, f func()) {
 		return
 	}
 	raceOff()
-	defer raceOn()
 	node := 0
 	name := "go"
 	if p := s.self(); p != nil {
 		node = p.Node
 		if p.dead() && !p.low {
+			raceOn()
 			return
 		}
 	}
-	t := s.newTask(fmt.Sprintf("%s@%d", name, site), node, false)
+	t := s.newTask(name, node, false)
+	t.site = site
 	s.logf("go", int64(t.ID), int64(site), "")
+	raceOn()
+	// the go statement itself must be visible to the race detector: it is the
+	// happens-before edge from the creator to the new goroutine
 	go s.runTask(t, f)
 }
 
@@ -380,10 +411,10 @@ func (s *Sim) runTask(t *Task, f func()) {
 	s.park(t)
 	raceOn()
 	f()
-	raceOff()
-	t.Finished = true
+	t.Finished = true // endTask takes its own raceOff
 }
 
+//go:norace
 func (s *Sim) endTask(t *Task) {
 	if r := recover(); r != nil {
 		if _, ok := r.(overrun); !ok {
@@ -394,6 +425,8 @@ func (s *Sim) endTask(t *Task) {
 			s.mu.Unlock()
 		}
 	}
+	raceOff()
+	raceRelease(&s.syncTasks)
 	s.unbind(t)
 	t.state.Store(stDone)
 	if s.current.Load() == t {
@@ -431,6 +464,7 @@ func AfterFunc(d time.Duration, f func()) *time.Timer {
 }
 
 // loop is the scheduler goroutine.
+//go:norace
 func (s *Sim) loop() {
 	raceOff()
 	defer close(s.schedDn)
@@ -470,6 +504,7 @@ func (s *Sim) loop() {
 	}
 }
 
+//go:norace
 func (s *Sim) choose(ready []*Task) *Task {
 	// killed tasks are flushed first, deterministically
 	for _, t := range ready {
@@ -498,6 +533,7 @@ func (s *Sim) choose(ready []*Task) *Task {
 
 // Kill marks every task of node as dead: parked ones exit when next scheduled,
 // running ones at their next yield or simulated I/O call.
+//go:norace
 func (s *Sim) Kill(node int) {
 	s.nodeEpoch[node&63].Add(1)
 	s.logf("kill", int64(node), 0, "")
@@ -511,6 +547,7 @@ func (s *Sim) Kill(node int) {
 func (s *Sim) Revive(node int) { s.logf("revive", int64(node), 0, "") }
 
 // NodeAlive reports whether the calling goroutine's task belongs to a live epoch.
+//go:norace
 func TaskDead() bool {
 	s := cur.Load()
 	if s == nil {
@@ -523,6 +560,7 @@ func TaskDead() bool {
 }
 
 // CurrentNode returns the node tag of the calling goroutine (0 outside a simulation).
+//go:norace
 func CurrentNode() int {
 	s := cur.Load()
 	if s == nil {
@@ -586,7 +624,23 @@ func Run(t *testing.T, tape *Tape, cfg Config, root func(w *World)) (res RunResu
 		res.Overrun = s.Overrun
 		res.Trace = s.TraceTail()
 	}()
+	bubbleDone := make(chan struct{})
+	var bubblePanic interface{}
+	go func() {
+		defer close(bubbleDone)
+		defer func() { bubblePanic = recover() }()
+		s.bubble(t, tape, cfg, root, &res)
+	}()
+	<-bubbleDone
+	if bubblePanic != nil {
+		panic(bubblePanic)
+	}
+	return res
+}
+
+func (s *Sim) bubble(t *testing.T, tape *Tape, cfg Config, root func(w *World), resp *RunResult) {
 	synctest.Test(t, func(*testing.T) {
+		res := resp
 		// channels must be created inside the bubble to block durably
 		s.kick = make(chan struct{}, 1)
 		s.schedDn = make(chan struct{})
@@ -643,11 +697,11 @@ func Run(t *testing.T, tape *Tape, cfg Config, root func(w *World)) (res RunResu
 		s.current.Store(nil)
 		<-s.schedDn
 	})
-	return res
 }
 
 // Settle parks the world until no other task is ready at the current instant
 // (all other tasks are blocked or finished). Simulated time does not advance.
+//go:norace
 func (w *World) Settle() {
 	raceOff()
 	w.S.park(w.task)
@@ -655,6 +709,7 @@ func (w *World) Settle() {
 }
 
 // Sleep advances simulated time by d while the other tasks run, then settles.
+//go:norace
 func (w *World) Sleep(d time.Duration) {
 	raceOff()
 	defer raceOn()
@@ -666,17 +721,19 @@ func (w *World) Sleep(d time.Duration) {
 	case s.kick <- struct{}{}:
 	default:
 	}
+	raceRelease(&s.syncWorld)
 	time.Sleep(d)
 	s.park(w.task)
 }
 
 // Spawn starts f as a task of the given node. It does not run until the world yields.
+//go:norace
 func (w *World) Spawn(node int, name string, f func()) *Task {
 	raceOff()
-	defer raceOn()
 	s := w.S
 	t := s.newTask(name, node, false)
 	s.logf("spawn", int64(t.ID), int64(node), name)
+	raceOn()
 	go s.runTask(t, f)
 	return t
 }
